@@ -509,6 +509,23 @@ public:
     L.want_conservation = (prop == "C04");
     ion::LedgerT< HydroDensitySubGrid > IL;
     init_ion_ledger(IL);
+    {
+      // each ledger only stops for classes of the property being decided
+      const char **hl = prop == "C10"   ? C10_CLASSES
+                        : prop == "C04" ? C04_CLASSES
+                        : prop == "C07" ? C07_CLASSES
+                                        : nullptr;
+      if (hl)
+        for (int k = 0; hl[k]; ++k)
+          L.my_classes.insert(hl[k]);
+      else
+        L.my_classes.insert("(none)");
+      if (prop == "C01")
+        for (int k = 0; C01_CLASSES[k]; ++k)
+          IL.my_classes.insert(C01_CLASSES[k]);
+      else
+        IL.my_classes.insert("(none)");
+    }
     if (tight) {
       IL.cap_buffers = c.nbuffers;
       IL.pool_margin = c.threads + 2;
@@ -590,6 +607,14 @@ public:
         out.notes.push_back("violation class '" + vclass +
                             "' seen (decided by another property's check)");
       }
+    }
+    for (auto &fc : L.foreign_classes_seen)
+      out.notes.push_back("violation class '" + fc +
+                          "' seen (decided by another property's check)");
+    for (auto &fc : IL.foreign_classes_seen)
+      out.notes.push_back("violation class '" + fc +
+                          "' seen (decided by another property's check)");
+    {
     }
     out.restart_worker = !finished;
     out.hash = fnv1a(rs.hash, L.ledger_hash);
